@@ -367,6 +367,28 @@ class Read(Relation):
                         "sel": sel, "kind": kind})
         return out
 
+    def exhaustive(self, tier):
+        """3 data rows x 2 cells: every subset of non-numeric cells x every placement of one '#' line (before the
+        header it is a comment, after it a data row) x {no filter, a two-sample filter}"""
+        import itertools
+
+        out = []
+        samples = ["s1", "s2", "s3"]
+        for bad in itertools.product([False, True], repeat=6):
+            for place in [None, 0, 1, 2, 3, 4]:
+                for sel in (None, ["s1", "s3"]):
+                    lines = [[["#IID", None], ["p0", None], ["p1", None]]]
+                    for i, s_ in enumerate(samples):
+                        row = [[s_, None]]
+                        for j in range(2):
+                            v = float(10 * i + j) + 0.5
+                            row.append(["NA", None] if bad[2 * i + j] else [repr(v), f2b(v)])
+                        lines.append(row)
+                    if place is not None:
+                        lines.insert(place, [["#c", None], ["7.0", f2b(7.0)], ["8.0", f2b(8.0)]])
+                    out.append({"cls": "P", "gz": False, "lines": lines, "sel": sel, "kind": "exhaustive"})
+        return out
+
     def run_impl(self, inp):
         import gzip
 
